@@ -113,7 +113,7 @@ tseed2 = {
 # identities derived in modules that are reached only through a module without identities of its own
 tseed3 = {
   "m": module("m", "m", imports=[dict(m="baseids", p="b"), dict(m="bundle", p="bu")],
-    ids=[identity("mine", ("b", "transport"))],
+    ids=[identity("mine", ("b", "transport")), identity("both", ("b", "secure"), ("", "mine")), identity("local", ("b", "local"), ("m", "mine"))],
     tds=[typedef("tr", ty("identityref", base=("b", "transport")), dflt="local")],
     body=[
         leaf("proto", ty=ty("identityref", base=("b", "transport"))),
@@ -124,7 +124,8 @@ tseed3 = {
   "baseids": module("baseids", "b", [], ids=[identity("transport"), identity("local", ("", "transport")), identity("secure")]),
   "bundle": module("bundle", "bu", [], imports=[dict(m="exttcp", p="t"), dict(m="extudp", p="u")]),
   "exttcp": module("exttcp", "t", [], imports=[dict(m="baseids", p="b")],
-                   ids=[identity("tcp", ("b", "transport")), identity("tls", ("", "tcp"), ("b", "secure"))]),
+                   ids=[identity("tcp", ("b", "transport")), identity("tls", ("", "tcp"), ("b", "secure")), identity("stls", ("b", "secure"), ("", "tcp")),
+                        identity("secure", ("b", "secure"), ("t", "tls"))]),
   "extudp": module("extudp", "u", [], imports=[dict(m="baseids", p="b")], ids=[identity("udp", ("b", "transport"))]),
 }
 json.dump([tseed1, tseed2, tseed3], open(os.path.join(os.path.dirname(os.path.abspath(__file__)), "..", "spec", "yangtypeseeds.json"), "w"), indent=0)
